@@ -58,6 +58,8 @@ PROPS["C20"] = {
             spec("C20/section/blacklist", "VerifC20Blacklist"),
             spec("C20/equiv/blacklist", "VerifC20BlacklistEquiv"),
             spec("C20/section/aggregation", "VerifC20AggSection"),
+            spec("C20/section/several-sections", "VerifC20Sections"),
+            spec("C20/section/several-rewriters", "VerifC20RewriterSections"),
             spec("C20/equiv/aggregation", "VerifC20AggEquiv"),
             spec("C20/section/rewriter", "VerifC20RewriterSection"),
             spec("C20/equiv/rewriter", "VerifC20RewriterEquiv"),
